@@ -362,6 +362,35 @@ func pruneOp(kind string) bool {
 // after the operation) against the contract and moves the model to the
 // successor. A non-empty return describes the violation.
 func (m *Model) Apply(op Op, obs *Obs, post []Msg) string {
+	if (op.Kind == "enq" || op.Kind == "enqb") && obs.Err == OK && post != nil && m.Cfg.PruneInterval > 0 && m.Cfg.DropOldest {
+		// A prune-eligible row whose id is re-enqueued by this very call may have been pruned first OR evicted by
+		// drop_oldest in favour of the new row; both are legal, they differ in how many other rows must go. Try the
+		// "pruned first" reading, fall back to the "evicted" reading.
+		ambiguous := false
+		for id, it := range m.Items {
+			if specHasID(op.Envs, id) && m.pruneEligible(it, m.Now, false) {
+				ambiguous = true
+			}
+		}
+		if ambiguous {
+			c := m.Clone()
+			c.Edges = map[string]int{}
+			if why := c.apply(op, obs, post, true); why == "" {
+				for k, v := range c.Edges {
+					m.Edges[k] += v
+				}
+				edges := m.Edges
+				*m = *c
+				m.Edges = edges
+				return ""
+			}
+			return m.apply(op, obs, post, false)
+		}
+	}
+	return m.apply(op, obs, post, true)
+}
+
+func (m *Model) apply(op Op, obs *Obs, post []Msg, replacedMeansPruned bool) string {
 	now := m.Now
 	if op.Kind == "tick" {
 		m.Now += int64(op.Dur)
@@ -392,7 +421,8 @@ func (m *Model) Apply(op Op, obs *Obs, post []Msg) string {
 			_, still := postByID[id]
 			if (op.Kind == "enq" || op.Kind == "enqb") && specHasID(op.Envs, id) {
 				// the id is re-enqueued by this very call: the old row was pruned first iff the call succeeded
-				still = obs.Err != OK
+				// (or, second reading, it was evicted by drop_oldest: then it is judged by the admission rule)
+				still = obs.Err != OK || !replacedMeansPruned
 			}
 			if !still && m.pruneEligible(it, now, op.Kind == "deq") {
 				if op.Kind == "deq" && it.State == Leased {
